@@ -79,7 +79,10 @@ Fixpoint triples_ok (i : Z) (prev : Z) (mem r : list Z) (tp : list Z) : bool :=
   match tp with
   | [] => true
   | ix :: pos :: val :: rest =>
-      (ix =? i) && (prev <? pos) &&
+      (* the i-th parameter of the iteration addresses the cell that vector index i was written to and read
+         from; WHICH cell that is (declaration order, order of the target list, ...) is not constrained by the
+         property - distinct indices address distinct cells because the written values are pairwise distinct *)
+      (ix =? i) &&
       (nth (Z.to_nat i) r (-7) =? val) && (nth (Z.to_nat pos) mem (-7) =? val) && (0 <=? pos) &&
       triples_ok (i + 1) pos mem r rest
   | _ => false
